@@ -1080,7 +1080,7 @@ def boundary_specs():
 
 
 def float_specs():
-    """Records over eight objectives, one of them real valued."""
+    """Records over nine objectives: one real valued, one that can be 0."""
     return [{"algorithm": "a1", "instance": i, "objective": o,
              "encoding": None, "max_fes": mf, "max_time_millis": None,
              "goal": g, "seed": sd, "packing": sd, "objset": "float"}
@@ -1117,7 +1117,30 @@ def objective_set(name):
 
             def __str__(self):
                 return "thirdBins"
-        _TAB["float"] = tuple(PR.DEFAULT_OBJECTIVES) + (ThirdBins, )
+        class ExcessBins(Objective):
+            """Bins beyond the lower bound: value and bounds can be 0."""
+
+            def __init__(self, instance):
+                super().__init__()
+                self.lb = instance.lower_bound_bins
+                self.n = instance.n_items
+
+            def evaluate(self, x):
+                return int(x.n_bins - self.lb)
+
+            def lower_bound(self):
+                return 0
+
+            def upper_bound(self):
+                return int(self.n - self.lb)
+
+            def is_always_integer(self):
+                return True
+
+            def __str__(self):
+                return "excessBins"
+        _TAB["float"] = tuple(PR.DEFAULT_OBJECTIVES) + (ThirdBins,
+                                                        ExcessBins)
     return _TAB["float"]
 
 
@@ -1183,7 +1206,7 @@ def record_self_check(spec):
     if rec.objectives.get("binCount") != pk.n_bins:
         probs.append(("binCount", rec.objectives.get("binCount"),
                       pk.n_bins))
-    nobj = 8 if spec.get("objset") else 7
+    nobj = len(objective_set(spec.get("objset")))
     if len(rec.objectives) != nobj or len(rec.objective_bounds) != 2 * nobj:
         probs.append(("objectives", len(rec.objectives), nobj))
     for o, v in rec.objectives.items():
